@@ -23,17 +23,23 @@ def ExportedCommand (pre : Predef) (n : Node J V) (m a : String) (mod : Module J
   mod ∈ n ∧ mod.name = m ∧ mod.exported = true ∧ Acc.command c ∈ mod.accs ∧ exportName pre (.command c) = some a
 
 /-- "satisfies the module's current dynamic limits": inside `<p>_limits` when the module has such a parameter,
-otherwise not below `<p>_min`, not above `<p>_max` (a missing bound does not restrict), and the bounds are not crossed -/
+and not below `<p>_min`, not above `<p>_max` (a missing bound does not restrict), and the bounds are not crossed -/
+def InsidePair (env : Env V) (lim : Option V) (v : V) : Prop :=
+  match lim with
+  | some l => env.le (env.split l).1 v = true ∧ env.le v (env.split l).2 = true
+  | none => True
+
+instance (env : Env V) (lim : Option V) (v : V) : Decidable (InsidePair env lim v) := by
+  unfold InsidePair; split <;> infer_instance
+
 def LimitsOK (env : Env V) (mod : Module J V) (attr : String) (v : V) : Prop :=
-  match attrValue mod (attr ++ "_limits") with
-  | some lim => env.le (env.split lim).1 v = true ∧ env.le v (env.split lim).2 = true
-  | none =>
-    ltOpt env (attrValue mod (attr ++ "_max")) (attrValue mod (attr ++ "_min")) = false
-    ∧ ltOpt env (some v) (attrValue mod (attr ++ "_min")) = false
-    ∧ ltOpt env (attrValue mod (attr ++ "_max")) (some v) = false
+  InsidePair env (attrValue mod (attr ++ "_limits")) v
+  ∧ ltOpt env (attrValue mod (attr ++ "_max")) (attrValue mod (attr ++ "_min")) = false
+  ∧ ltOpt env (some v) (attrValue mod (attr ++ "_min")) = false
+  ∧ ltOpt env (attrValue mod (attr ++ "_max")) (some v) = false
 
 instance (env : Env V) (mod : Module J V) (attr : String) (v : V) : Decidable (LimitsOK env mod attr v) := by
-  unfold LimitsOK; split <;> infer_instance
+  unfold LimitsOK; infer_instance
 
 /-- a check has no objection -/
 def Passes (env : Env V) (mod : Module J V) (attr : String) (v : V) : Check → Prop
@@ -59,6 +65,8 @@ structure Accepted (pre : Predef) (env : Env V) (n : Node J V) (spec : Spec) (j 
   notReadonly : p.readonly = false
   notConstant : p.constant = none
   payload : p.dt.accept j (some p.entry.value) = .ok v
+  /-- a new `<p>_limits` pair is itself a dynamic limit: it must not be inverted -/
+  ordered : p.isLimitsPair = true → pairInverted env v = false
   revalidated : p.dt.revalidate v = .ok w
   checks : ChecksOK env mod p.attr v p.checks
 
@@ -119,12 +127,14 @@ def changeVerdict (pre : Predef) (env : Env V) (n : Node J V) (spec : Spec) (j :
           match p.dt.accept j (some p.entry.value) with
           | .error e => .refuse e.cls
           | .ok v =>
-            match p.dt.revalidate v with
-            | .error e => .refuse e.cls
-            | .ok w =>
-              match chainVerdict env mod p.attr v p.checks with
-              | some c => .refuse c
-              | none => .allow mod.name p.attr p.hasWrite v w
+            if p.isLimitsPair && pairInverted env v then .refuse .rangeError
+            else
+              match p.dt.revalidate v with
+              | .error e => .refuse e.cls
+              | .ok w =>
+                match chainVerdict env mod p.attr v p.checks with
+                | some c => .refuse c
+                | none => .allow mod.name p.attr p.hasWrite v w
 
 def doVerdict (pre : Predef) (n : Node J V) (spec : Spec) (data : Option J) : Verdict V :=
   match targetDo spec with
